@@ -60,27 +60,27 @@ def exP (tag : Nat) : Profile := { id := 1, devIds := [1, 2], auto := false, del
 def exD (id linked : Nat) : Device := { id := id, linked := linked, dedicated := [], human := 0, tag := linked }
 
 def exOps : List Op :=
-  [.sync true [exP 1] [exD 1 7, exD 2 0], .sync false [exP 2] [exD 1 8, exD 2 0], .byKey (.linked 7),
-   .sync false [exP 3] [exD 1 8, exD 2 7], .run 0]
+  [.sync true 10 [exP 1] [exD 1 7, exD 2 0], .sync false 11 [exP 2] [exD 1 8, exD 2 0], .byKey (.linked 7),
+   .sync false 12 [exP 3] [exD 1 8, exD 2 7], .run 0]
 
 example : (run exOps).pending = [] ∧ ((run (exOps.take 3)).pending = [.key (.linked 7)]) ∧
     (lookupKey (run exOps) (.linked 7)).1 = .ok (exP 3) (exD 2 7) := by decide
 
 /-- Every response of the example history is well formed. -/
-theorem exOps_resp : ∀ full ps ds, Op.sync full ps ds ∈ exOps → RespWF ps ds := by
-  intro full ps ds hm
+theorem exOps_resp : ∀ full t ps ds, Op.sync full t ps ds ∈ exOps → RespWF ps ds := by
+  intro full t ps ds hm
   simp only [exOps, List.mem_cons, List.mem_nil_iff, or_false, Op.sync.injEq, reduceCtorEq, false_or, or_false] at hm
-  rcases hm with ⟨_, rfl, rfl⟩ | ⟨_, rfl, rfl⟩ | ⟨_, rfl, rfl⟩ <;>
+  rcases hm with ⟨_, _, rfl, rfl⟩ | ⟨_, _, rfl, rfl⟩ | ⟨_, _, rfl, rfl⟩ <;>
     exact { nodupP := by decide, nodupD := by decide, listed := by decide, owned := by decide }
 
 macro "ex_uniq" t:term "," f:term : tactic => `(tactic| (
   apply uniq_small _ $t $f
   · intro k p h
-    simp [exOps, latest, latestStep, Latest.apply, Latest.overlay, Latest.empty, putMany, putAll, put, profItems, exP] at h
+    simp [exOps, latest, spec, specStep, Spec.empty, Latest.apply, Latest.overlay, Latest.empty, putMany, putAll, put, profItems, exP] at h
     repeat' split at h
     all_goals first | (cases h; rfl) | (obtain ⟨_, h⟩ := h; subst h; rfl) | (simp at h) | omega
   · intro k d h
-    simp [exOps, latest, latestStep, Latest.apply, Latest.overlay, Latest.empty, putMany, putAll, put, devItems, exD] at h
+    simp [exOps, latest, spec, specStep, Spec.empty, Latest.apply, Latest.overlay, Latest.empty, putMany, putAll, put, devItems, exD] at h
     repeat' split at h
     all_goals first | (cases h; simp) | (obtain ⟨_, h⟩ := h; subst h; simp) | (simp at h) | omega))
 
@@ -94,7 +94,7 @@ theorem exOps_wf : HistWF exOps := by
     intro n
     have hn : n = 0 ∨ n = 1 ∨ n = 2 ∨ n = 3 ∨ n = 4 ∨ 5 ≤ n := by omega
     rcases hn with rfl | rfl | rfl | rfl | rfl | h
-    · exact ⟨by intro id p p' h; simp [latest, Latest.empty] at h, by intro k p d p' d' h; simp [OwnerKey, OwnerDev, latest, Latest.empty] at h⟩
+    · exact ⟨by intro id p p' h; simp [latest, spec, Spec.empty, Latest.empty] at h, by intro k p d p' d' h; simp [OwnerKey, OwnerDev, latest, spec, Spec.empty, Latest.empty] at h⟩
     · ex_uniq (exP 1), (fun _ => 1)
     · ex_uniq (exP 2), (fun _ => 1)
     · ex_uniq (exP 2), (fun _ => 1)
@@ -106,6 +106,53 @@ theorem exOps_wf : HistWF exOps := by
 
 example : HistWF exOps ∧ (lookupKey (run exOps) (.linked 7)).1 = .ok (exP 3) (exD 2 7) :=
   ⟨exOps_wf, by decide⟩
+
+/-! Non-vacuity with a restart: the partial sync that moved device 1 from IP 7 to IP 8 is lost by the
+restart (only full syncs are cached), so the restarted database answers from the cached full sync. -/
+
+def exRestartOps : List Op :=
+  [.sync true 10 [exP 1] [exD 1 7, exD 2 0], .sync false 11 [exP 2] [exD 1 8, exD 2 0], .restart 15,
+   .byKey (.linked 8)]
+
+macro "ex_uniq_r" t:term "," f:term : tactic => `(tactic| (
+  apply uniq_small _ $t $f
+  · intro k p h
+    simp [exRestartOps, latest, spec, specStep, Spec.empty, restartLatest, CacheFile.usable, fileCacheVersion,
+      Latest.apply, Latest.overlay, Latest.empty, putMany, putAll, put, profItems, exP] at h
+    repeat' split at h
+    all_goals first | (cases h; rfl) | (obtain ⟨_, h⟩ := h; subst h; rfl) | (simp at h) | omega
+  · intro k d h
+    simp [exRestartOps, latest, spec, specStep, Spec.empty, restartLatest, CacheFile.usable, fileCacheVersion,
+      Latest.apply, Latest.overlay, Latest.empty, putMany, putAll, put, devItems, exD] at h
+    repeat' split at h
+    all_goals first | (cases h; simp) | (obtain ⟨_, h⟩ := h; subst h; simp) | (simp at h) | omega))
+
+theorem exRestartOps_wf : HistWF exRestartOps := by
+  refine ⟨?_, ?_⟩
+  · intro full t ps ds hm
+    simp only [exRestartOps, List.mem_cons, List.mem_nil_iff, or_false, Op.sync.injEq, reduceCtorEq, or_false] at hm
+    rcases hm with ⟨_, _, rfl, rfl⟩ | ⟨_, _, rfl, rfl⟩ <;>
+      exact { nodupP := by decide, nodupD := by decide, listed := by decide, owned := by decide }
+  · intro pre hpre
+    have : pre = exRestartOps.take pre.length := List.prefix_iff_eq_take.mp hpre
+    rw [this]
+    have hcases : ∀ n, Uniq (latest (exRestartOps.take n)) := by
+      intro n
+      have hn : n = 0 ∨ n = 1 ∨ n = 2 ∨ n = 3 ∨ 4 ≤ n := by omega
+      rcases hn with rfl | rfl | rfl | rfl | h
+      · exact ⟨by intro id p p' h; simp [latest, spec, Spec.empty, Latest.empty] at h, by intro k p d p' d' h; simp [OwnerKey, OwnerDev, latest, spec, Spec.empty, Latest.empty] at h⟩
+      · ex_uniq_r (exP 1), (fun _ => 1)
+      · ex_uniq_r (exP 2), (fun _ => 1)
+      · ex_uniq_r (exP 1), (fun _ => 1)
+      · have : exRestartOps.take n = exRestartOps := List.take_of_length_le (by simpa [exRestartOps] using h)
+        rw [this]
+        ex_uniq_r (exP 1), (fun _ => 1)
+    exact hcases _
+
+example : HistWF exRestartOps ∧ (lookupKey (run exRestartOps) (.linked 7)).1 = .ok (exP 1) (exD 1 7) ∧
+    (lookupKey (run (exRestartOps.take 2)) (.linked 8)).1 = .ok (exP 2) (exD 1 8) ∧
+    (lookupKey (run exRestartOps) (.linked 8)).1 = .devNF ∧ reqTime (run exRestartOps) false = 10 :=
+  ⟨exRestartOps_wf, by decide, by decide, by decide, by decide⟩
 
 /-! ### The defects of the pinned tree (now repaired) are real violations of the statement -/
 
@@ -121,10 +168,10 @@ theorem cleanup_overtaken_counterexample :
   refine ⟨by decide, ⟨by decide, by decide, by decide, by decide⟩, by decide⟩
 
 def exMoveOps : List Op :=
-  [.sync true [{ id := 1, devIds := [1], auto := false, deleted := false, tag := 1 },
+  [.sync true 1 [{ id := 1, devIds := [1], auto := false, deleted := false, tag := 1 },
                { id := 2, devIds := [], auto := false, deleted := false, tag := 2 }]
               [{ id := 1, linked := 0, dedicated := [], human := 5, tag := 1 }],
-   .sync false [{ id := 2, devIds := [1], auto := false, deleted := false, tag := 3 },
+   .sync false 2 [{ id := 2, devIds := [1], auto := false, deleted := false, tag := 3 },
                 { id := 1, devIds := [], auto := false, deleted := false, tag := 4 }]
                [{ id := 1, linked := 0, dedicated := [], human := 5, tag := 2 }]]
 
@@ -153,63 +200,236 @@ theorem lookups_congr {s₁ s₂ : St} (h1 : s₁.profiles = s₂.profiles) (h2 
   refine ⟨hf, hk, ?_⟩
   funext pid hid; unfold lookupHuman; rw [h1, hk]
 
-/-- **restart_equivalent.** Let `a` be the database right after the full synchronisation that wrote
-the cache (whatever its earlier state `s` and whatever clean-ups were pending).  A database
-started from that cache file answers every look-up exactly like `a`, provided the cache holds at
-least one profile and one device (records pass the file unchanged by `filecache_roundtrip`). -/
-theorem restart_equivalent (s : St) (ps : List Profile) (ds : List Device)
-    (hp : ps ≠ []) (hd : ds ≠ []) :
-    let a := applySync s true ps ds
-    let r := loadCache fileCacheVersion a.cache
-    findByDev r = findByDev a ∧ lookupKey r = lookupKey a ∧ lookupHuman r = lookupHuman a := by
-  intro a r
-  have hl : ¬ (ps.length = 0 ∨ ds.length = 0) := by
-    intro h
-    rcases h with h | h
-    · exact hp (List.length_eq_zero_iff.mp h)
-    · exact hd (List.length_eq_zero_iff.mp h)
-  have hr : r = { setAll init ps ds with cache := some (ps, ds) } := by
-    show loadCache fileCacheVersion (some (ps, ds)) = _
-    unfold loadCache
-    simp only []
-    rw [if_neg (by simp), if_neg hl]
-  rw [hr]
-  exact lookups_congr rfl rfl rfl rfl
+theorem findByDev_ok_maps {s : St} {id : Nat} {p : Profile} {d : Device}
+    (h : (findByDev s id).1 = .ok p d) : (∃ pid, s.profiles pid = some p) ∧ s.devices id = some d := by
+  rw [findByDev_ok] at h
+  unfold attachedDevice at h
+  split at h
+  · cases h
+  · rename_i pid _
+    split at h
+    · cases h
+    · rename_i p' hp'
+      split at h
+      · cases hd : s.devices id with
+        | none => simp [hd] at h
+        | some d' =>
+          simp [hd] at h
+          obtain ⟨rfl, rfl⟩ := h
+          exact ⟨⟨pid, hp'⟩, rfl⟩
+      · cases h
 
-example : ([exP 1] : List Profile) ≠ [] ∧ ([exD 1 7] : List Device) ≠ [] ∧
-    (lookupKey (loadCache fileCacheVersion (applySync init true [exP 1] [exD 1 7]).cache) (.linked 7)).1
-      = .ok (exP 1) (exD 1 7) := by decide
+theorem lookupKey_ok_findByDev {s : St} {k : Key} {p : Profile} {d : Device}
+    (h : (lookupKey s k).1 = .ok p d) : ∃ id, (findByDev s id).1 = .ok p d := by
+  unfold lookupKey at h
+  split at h
+  · cases h
+  · rename_i id _
+    split at h
+    · rename_i p' d' hf
+      split at h
+      · simp at h
+        obtain ⟨rfl, rfl⟩ := h
+        exact ⟨id, hf⟩
+      · cases h
+    · cases h
+    · cases h
+
+theorem lookupHuman_ok_lookupKey {s : St} {pid hid : Nat} {p : Profile} {d : Device}
+    (h : (lookupHuman s pid hid).1 = .ok p d) : (lookupKey s (.human hid pid)).1 = .ok p d := by
+  unfold lookupHuman at h
+  split at h
+  · cases h
+  · exact h
+
+/-- A database without profile records, or without device records, finds nothing. -/
+theorem no_ok_of_empty (s : St) (h : s.profiles = (fun _ => none) ∨ s.devices = (fun _ => none)) :
+    (∀ id p d, (findByDev s id).1 ≠ .ok p d) ∧ (∀ k p d, (lookupKey s k).1 ≠ .ok p d) ∧
+    (∀ pid hid p d, (lookupHuman s pid hid).1 ≠ .ok p d) := by
+  have h1 : ∀ id p d, (findByDev s id).1 ≠ .ok p d := by
+    intro id p d hf
+    obtain ⟨⟨pid, hp⟩, hd⟩ := findByDev_ok_maps hf
+    rcases h with h | h
+    · rw [h] at hp; cases hp
+    · rw [h] at hd; cases hd
+  have h2 : ∀ k p d, (lookupKey s k).1 ≠ .ok p d := by
+    intro k p d hk
+    obtain ⟨id, hf⟩ := lookupKey_ok_findByDev hk
+    exact h1 id p d hf
+  exact ⟨h1, h2, fun pid hid p d hl => h2 _ p d (lookupHuman_ok_lookupKey hl)⟩
+
+/-- **restart_equivalent.** Let `a` be the database right after the full synchronisation that wrote
+the cache (whatever its earlier state `s`, whatever clean-ups were pending, whatever the response).
+A database started from that cache file finds exactly what `a` finds, for every look-up of every
+kind — also when the cache holds no profiles or no devices and is ignored by design, because then
+`a` finds nothing either.  When the cache is used, the two databases agree on every look-up in
+full (the kind of not-found error and the clean-ups started included) and on the synchronisation
+point sent with the next partial request. -/
+theorem restart_equivalent (s : St) (t : Nat) (ps : List Profile) (ds : List Device) :
+    let a := applySync s true t ps ds
+    let r := loadCache fileCacheVersion a.cache
+    (∀ id p d, (findByDev r id).1 = .ok p d ↔ (findByDev a id).1 = .ok p d) ∧
+    (∀ k p d, (lookupKey r k).1 = .ok p d ↔ (lookupKey a k).1 = .ok p d) ∧
+    (∀ pid hid p d, (lookupHuman r pid hid).1 = .ok p d ↔ (lookupHuman a pid hid).1 = .ok p d) ∧
+    (ps ≠ [] → ds ≠ [] → findByDev r = findByDev a ∧ lookupKey r = lookupKey a ∧
+      lookupHuman r = lookupHuman a ∧ r.syncTime = a.syncTime) := by
+  intro a r
+  have hfull : ps ≠ [] → ds ≠ [] → findByDev r = findByDev a ∧ lookupKey r = lookupKey a ∧
+      lookupHuman r = lookupHuman a ∧ r.syncTime = a.syncTime := by
+    intro hp hd
+    have hl : ¬ (ps.length = 0 ∨ ds.length = 0) := by
+      intro h
+      rcases h with h | h
+      · exact hp (List.length_eq_zero_iff.mp h)
+      · exact hd (List.length_eq_zero_iff.mp h)
+    have hr : r = { setAll init ps ds with cache := some ⟨t, ps, ds⟩, syncTime := t } := by
+      show loadCache fileCacheVersion (some ⟨t, ps, ds⟩) = _
+      unfold loadCache
+      simp only []
+      rw [if_neg (by simp), if_neg hl]
+    rw [hr]
+    obtain ⟨c1, c2, c3⟩ := lookups_congr
+      (s₁ := { setAll init ps ds with cache := some ⟨t, ps, ds⟩, syncTime := t }) (s₂ := a) rfl rfl rfl rfl
+    exact ⟨c1, c2, c3, rfl⟩
+  by_cases hp : ps = []
+  · -- no profiles: neither database has a profile record
+    have ha := no_ok_of_empty a (Or.inl (by subst hp; rfl))
+    have hr := no_ok_of_empty r (Or.inl (by subst hp; rfl))
+    exact ⟨fun id p d => ⟨fun h => (hr.1 id p d h).elim, fun h => (ha.1 id p d h).elim⟩,
+      fun k p d => ⟨fun h => (hr.2.1 k p d h).elim, fun h => (ha.2.1 k p d h).elim⟩,
+      fun pid hid p d => ⟨fun h => (hr.2.2 pid hid p d h).elim, fun h => (ha.2.2 pid hid p d h).elim⟩,
+      fun h => (h hp).elim⟩
+  · by_cases hd : ds = []
+    · have ha := no_ok_of_empty a (Or.inr (by subst hd; rfl))
+      have hr : r.devices = (fun _ => none) := by
+        show (loadCache fileCacheVersion (some ⟨t, ps, ds⟩)).devices = _
+        subst hd
+        unfold loadCache
+        simp only []
+        rw [if_pos (show ps.length = 0 ∨ ([] : List Device).length = 0 from Or.inr rfl)]
+        rfl
+      have hr := no_ok_of_empty r (Or.inr hr)
+      exact ⟨fun id p d => ⟨fun h => (hr.1 id p d h).elim, fun h => (ha.1 id p d h).elim⟩,
+        fun k p d => ⟨fun h => (hr.2.1 k p d h).elim, fun h => (ha.2.1 k p d h).elim⟩,
+        fun pid hid p d => ⟨fun h => (hr.2.2 pid hid p d h).elim, fun h => (ha.2.2 pid hid p d h).elim⟩,
+        fun _ h => (h hd).elim⟩
+    · obtain ⟨e1, e2, e3, e4⟩ := hfull hp hd
+      exact ⟨fun id p d => by rw [e1], fun k p d => by rw [e2], fun pid hid p d => by rw [e3],
+        fun _ _ => ⟨e1, e2, e3, e4⟩⟩
+
+example : (lookupKey (loadCache fileCacheVersion (applySync init true 5 [exP 1] [exD 1 7]).cache) (.linked 7)).1
+      = .ok (exP 1) (exD 1 7) ∧
+    (loadCache fileCacheVersion (applySync init true 5 [exP 1] [exD 1 7]).cache).syncTime = 5 := by decide
 
 /-- **version_mismatch_ignored.** A cache of another version, and a cache without profiles or
-without devices, leave the started database empty: every look-up is not-found. -/
-theorem version_mismatch_ignored (v : Nat) (c : Option (List Profile × List Device))
-    (h : v ≠ fileCacheVersion ∨ ∀ pd, c = some pd → pd.1 = [] ∨ pd.2 = []) :
+without devices, leave the started database empty: every look-up is not-found, and the next
+request carries the zero time (everything is fetched anew). -/
+theorem version_mismatch_ignored (v : Nat) (c : Option CacheFile)
+    (h : v ≠ fileCacheVersion ∨ ∀ f, c = some f → f.profs = [] ∨ f.devs = []) :
     let r := loadCache v c
     (∀ id, (findByDev r id).1 = .devNF) ∧ (∀ k, (lookupKey r k).1 = .devNF) ∧
-    (∀ pid hid, (lookupHuman r pid hid).1 = .profNF) := by
+    (∀ pid hid, (lookupHuman r pid hid).1 = .profNF) ∧ (∀ full, reqTime r full = 0) := by
   intro r
-  have hmaps : r.profiles = init.profiles ∧ r.devIdx = init.devIdx ∧ r.idx = init.idx := by
-    show (loadCache v c).profiles = _ ∧ (loadCache v c).devIdx = _ ∧ (loadCache v c).idx = _
+  have hmaps : r.profiles = init.profiles ∧ r.devIdx = init.devIdx ∧ r.idx = init.idx ∧
+      r.syncTime = 0 := by
+    show (loadCache v c).profiles = _ ∧ (loadCache v c).devIdx = _ ∧ (loadCache v c).idx = _ ∧
+      (loadCache v c).syncTime = 0
     unfold loadCache
     cases c with
-    | none => exact ⟨rfl, rfl, rfl⟩
-    | some pd =>
+    | none => exact ⟨rfl, rfl, rfl, rfl⟩
+    | some f =>
       simp only []
       by_cases hv : v ≠ fileCacheVersion
-      · rw [if_pos hv]; exact ⟨rfl, rfl, rfl⟩
+      · rw [if_pos hv]; exact ⟨rfl, rfl, rfl, rfl⟩
       · rw [if_neg hv]
-        have : pd.1.length = 0 ∨ pd.2.length = 0 := by
+        have : f.profs.length = 0 ∨ f.devs.length = 0 := by
           rcases h with h | h
           · exact absurd h hv
-          · rcases h pd rfl with h | h <;> simp [h]
-        rw [if_pos this]; exact ⟨rfl, rfl, rfl⟩
-  obtain ⟨h1, h3, h4⟩ := hmaps
-  refine ⟨?_, ?_, ?_⟩
+          · rcases h f rfl with h | h <;> simp [h]
+        rw [if_pos this]; exact ⟨rfl, rfl, rfl, rfl⟩
+  obtain ⟨h1, h3, h4, h5⟩ := hmaps
+  refine ⟨?_, ?_, ?_, ?_⟩
   · intro id; unfold findByDev; rw [h3]; rfl
   · intro k; unfold lookupKey; rw [h4]; rfl
   · intro pid hid; unfold lookupHuman; rw [h1]; rfl
+  · intro full; unfold reqTime; rw [h5]; cases full <;> rfl
 
 example : (16 : Nat) ≠ fileCacheVersion := by decide
+
+/-! ### The synchronisation point: no gap between what the database holds and what it asks for -/
+
+/-- **request_time_no_gap.** After ANY sequence of successful synchronisations, failed storage
+requests, look-ups, clean-up executions and restarts, a full synchronisation asks the storage for
+everything (zero time) and a partial one asks for the changes since exactly the sync time of the
+data the database currently answers from — the most recent response applied or the cache loaded at
+the last restart (`lastApplied`, a backwards scan of the history that ignores failures, look-ups
+and clean-ups).  So no change the backend made after that point can be skipped, and a failed request
+does not advance the point. -/
+theorem request_time_no_gap (evs : List Ev) (full : Bool) :
+    reqTime (runEv evs) full = if full then 0 else lastApplied evs.reverse := by
+  have h := (proto_inv evs.reverse).1
+  rw [List.foldr_reverse] at h
+  unfold reqTime runEv
+  cases full with
+  | true => rfl
+  | false => simpa using h
+
+/-! ### End to end: the look-ups reflect the backend, not merely the responses received -/
+
+/-- **lookups_track_backend.** Let the storage be ANY backend that answers "changes since `t`"
+honestly (`Backend.Honest (· = ·)`: its answer laid over its records of time `t` gives its current
+records), and let the database run ANY sequence of successful full/partial synchronisations against
+it (the backend answers the request the database really sends, `reqTime`), failed requests,
+look-ups, clean-up executions and restarts from the cache, backend times not running backwards.
+Then — provided the resulting history is well formed (`HistWF`, the backend's uniqueness guarantee)
+— each of the four look-ups returns exactly the owner of the key in the BACKEND's records of the
+time of the last data applied (`syncTime`: the last successful synchronisation, or after a restart
+the cached full one).  This needs the synchronisation point to be kept without gaps: a database
+asking for a later point, or applying a partial answer as a full one, would not satisfy it. -/
+theorem lookups_track_backend (B : Backend) (hB : B.Honest (fun L L' => L = L')) (acts : List Act)
+    (hok : ∀ a ∈ acts, a.ok) (hm : Mono 0 acts) (hwf : HistWF (opsOf B acts init)) :
+    let s := run (opsOf B acts init)
+    (∀ id p d, (findByDev s id).1 = .ok p d ↔ OwnerDev (B.state s.syncTime) id p d) ∧
+    (∀ k p d, (lookupKey s k).1 = .ok p d ↔ OwnerKey (B.state s.syncTime) k p d) ∧
+    (∀ pid hid p d, (lookupHuman s pid hid).1 = .ok p d ↔
+      OwnerKey (B.state s.syncTime) (.human hid pid) p d) := by
+  intro s
+  obtain ⟨now', ht⟩ := tracks_run B hB acts init Spec.empty 0 (tracks_init B hB) hok hm
+  have he : latest (opsOf B acts init) = B.state s.syncTime := ht.cur
+  have hI := inv_run _ hwf
+  rw [he] at hI
+  exact ⟨fun id p d => lookupDev_spec hI id p d, fun k p d => lookupKey_spec hI k p d,
+    fun pid hid p d => lookupHuman_spec hI pid hid p d⟩
+
+/-- Non-vacuity: a backend with a change log (device 1 gets linked IP 7 at time 10 and moves to IP 8
+at time 11) is honest, and a database that syncs fully at 10, fails once, syncs partially at 11 and
+restarts (falling back to the cached full sync) tracks it. -/
+def exLog : Nat → List Profile × List Device
+  | 10 => ([exP 1], [exD 1 7, exD 2 0])
+  | 11 => ([exP 2], [exD 1 8, exD 2 0])
+  | _ => ([], [])
+
+def exActs : List Act := [.sync true 10, .fail false, .sync false 11, .op (.restart 15), .op (.byKey (.linked 8))]
+
+example : (logBackend exLog).Honest (fun L L' => L = L') := logBackend_honest exLog
+
+example : opsOf (logBackend exLog) exActs init = exRestartOps ∧ HistWF (opsOf (logBackend exLog) exActs init) ∧
+    (∀ a ∈ exActs, a.ok) ∧ Mono 0 exActs := by
+  have he : opsOf (logBackend exLog) exActs init = exRestartOps := rfl
+  refine ⟨he, he ▸ exRestartOps_wf, ?_, by simp [exActs, Mono]⟩
+  intro a ha
+  simp only [exActs, List.mem_cons, List.mem_nil_iff, or_false] at ha
+  rcases ha with rfl | rfl | rfl | rfl | rfl <;> trivial
+
+def exEvs : List Ev :=
+  [.op (.sync true 10 [exP 1] [exD 1 7, exD 2 0]), .failed false, .op (.byKey (.linked 7)),
+   .op (.sync false 12 [exP 2] [exD 1 8, exD 2 0]), .failed true, .op (.restart 15), .failed false]
+
+/-- After the restart the partial request asks for the changes since the cached full sync (10),
+not since the later partial one (12) whose data the restart lost. -/
+example : reqTime (runEv (exEvs.take 2)) false = 10 ∧ reqTime (runEv (exEvs.take 5)) false = 12 ∧
+    reqTime (runEv exEvs) false = 10 ∧ reqTime (runEv exEvs) true = 0 ∧
+    lastApplied exEvs.reverse = 10 := by decide
 
 end Agd.ProfileDB
 
@@ -294,10 +514,17 @@ end Agd.ProfileCache
 #print axioms Agd.ProfileDB.lookup_unowned_not_found
 #print axioms Agd.ProfileDB.exOps_resp
 #print axioms Agd.ProfileDB.exOps_wf
+#print axioms Agd.ProfileDB.exRestartOps_wf
 #print axioms Agd.ProfileDB.cleanup_overtaken_counterexample
 #print axioms Agd.ProfileDB.humanid_moved_counterexample
 #print axioms Agd.ProfileDB.lookups_congr
+#print axioms Agd.ProfileDB.findByDev_ok_maps
+#print axioms Agd.ProfileDB.lookupKey_ok_findByDev
+#print axioms Agd.ProfileDB.lookupHuman_ok_lookupKey
+#print axioms Agd.ProfileDB.no_ok_of_empty
 #print axioms Agd.ProfileDB.restart_equivalent
+#print axioms Agd.ProfileDB.request_time_no_gap
+#print axioms Agd.ProfileDB.lookups_track_backend
 #print axioms Agd.ProfileDB.version_mismatch_ignored
 #print axioms Agd.ProfileCache.filecache_roundtrip
 #print axioms Agd.ProfileCache.filecache_auth_counterexample
